@@ -141,6 +141,21 @@ def run(ctx):
             circ.backward(w)
             if impl.ops_of(w) != [(x[0], x[1] % 4) for x in rows]:
                 ctx.fail('diagonalize', 'backward pass does not re-encode the state', dict(rows=rows, got=impl.ops_of(w)))
+            # the state evolves in place; diagonalizing it again must diagonalize the *current* state
+            cur = list(rows)
+            for _step in range(rng.randrange(1, 4)):
+                if rng.random() < 0.5:
+                    Gop = G.rand_herm(rng, n, nonid=True)
+                    st.rotate_by(impl.pauli(Gop)); cur = [G.rotate_op(Gop, x) for x in cur]
+                else:
+                    d = CU.rand_gate(rng, n, kinds=('gen', 'named', 'cnot'))
+                    CU.impl_gate(impl, d).forward(st); cur = [CU.oracle_gate(d, x) for x in cur]
+                c2 = CI.diagonalize(st)
+                w2 = impl.state(cur, 0)
+                c2.forward(w2)
+                if impl.ops_of(w2) != zero:
+                    ctx.fail('diagonalize', 'after the state was evolved in place, diagonalizing it again does not map the current state to |0...0>', dict(rows=rows, current=cur, got=impl.ops_of(w2)))
+                    break
             cid[0] += 1
             a = 's%d' % cid[0]
             ctx.drv.ask('circ %s diagstate 0 %s' % (a, H.erows_ops(rows)))
@@ -172,7 +187,11 @@ def run(ctx):
             if not strs:
                 continue
         cs = rng.sample([1.0, 2.0, -0.5, 4.0, -3.0, 0.25, 8.0, -16.0], len(strs)) if len(strs) <= 8 else None
+        if rng.random() < 0.3:        # a very small term (far below the square root of the tolerance)
+            cs[rng.randrange(len(cs))] = rng.choice([2.0 ** -20, -2.0 ** -24])
         terms = [((s, 0), complex(c)) for s, c in zip(strs, cs)]
+        if rng.random() < 0.3:        # a constant (identity) term, sometimes the largest coefficient
+            terms.insert(rng.randrange(len(terms) + 1), ((tuple('I' * n), 0), complex(rng.choice([32.0, 0.125, -64.0]))))
         H0 = impl.poly(terms)
         rep = dict(N=n, terms=terms, commuting=commuting)
         try:
